@@ -896,3 +896,20 @@ Proof.
     destruct Hpp as [-> ->]. cbn [fst snd].
     destruct (N.ltb_spec USIZE_MAX (re + shift0)); [unfold USIZE_MAX, U64MAX, U16 in *; lia | reflexivity].
 Qed.
+
+(** * the Display impls format_state calls are total (C15), whatever the getters return *)
+Require IndProofs.FmtProofs.
+
+Theorem formatters_total sn tm key width c :
+  formatter_call sn tm key width = Some c -> exists s, Fmt.fmt_model c = Ok s.
+Proof. intros _. apply FmtProofs.fmt_total. Qed.
+
+(* in particular the saturated estimates: eta() = u64::MAX seconds, duration() = Duration::MAX *)
+Lemma formatters_total_saturated sn pb pu el :
+  let tm := mktimes el (U64MAX, 999999999) (U64MAX, 999999999) pb pu in
+  (exists s, Fmt.fmt_model (Fmt.CHDur U64MAX 999999999 true) = Ok s)
+  /\ formatter_call sn tm KeyNames.eta None = Some (Fmt.CHDur U64MAX 999999999 true)
+  /\ formatter_call sn tm KeyNames.duration None = Some (Fmt.CHDur U64MAX 999999999 true).
+Proof.
+  cbv zeta. split; [apply FmtProofs.fmt_total|]. split; vm_compute; reflexivity.
+Qed.
